@@ -273,6 +273,14 @@ class GridderGrid(Contract):
                     kw["extra_coords"] = rng.choice([5.0, [1.0, 2.0]])
             else:
                 e1, n1 = np.sort(nrng.uniform(-5, 5, rng.randint(2, 5))), np.sort(nrng.uniform(-5, 5, rng.randint(1, 4)))
+                # explicit axes in ANY order: rasters usually run north -> south; value[i, j] must stay at (easting[j], northing[i])
+                orient = rng.choice(["asc", "desc_n", "desc_e", "desc_both", "shuffled"])
+                if orient in ("desc_n", "desc_both"):
+                    n1 = n1[::-1].copy()
+                if orient in ("desc_e", "desc_both"):
+                    e1 = e1[::-1].copy()
+                if orient == "shuffled":
+                    e1, n1 = nrng.permutation(e1), nrng.permutation(n1)
                 kw["coordinates"] = (e1, n1) if mode == "coords1d" else tuple(np.meshgrid(e1, n1))
             if rng.random() < 0.4:
                 kw["projection"] = _concrete_projection(rng.choice(["affine", "swirl"]))
